@@ -107,7 +107,7 @@ def inCutset (cut : Bytes) : Nat → Bool := fun r => (decodeAll cut).contains r
 
 def caseless (r : Nat) : Bool :=
   (0x2000 ≤ r && r ≤ 0x206F) || (0x3000 ≤ r && r ≤ 0x303F) || (0x4E00 ≤ r && r ≤ 0x9FFF) ||
-  (0x1F300 ≤ r && r ≤ 0x1FAFF) || r == 0xFFFD || r == 0x20AC || (0x0300 ≤ r && r ≤ 0x036F) ||
+  (0x1F300 ≤ r && r ≤ 0x1FAFF) || r == 0xFFFD || r == 0x20AC || (0x0300 ≤ r && r ≤ 0x036F && r != 0x0345) ||
   r == 0xD7 || r == 0xF7 || r == 0xDF || (0xA0 ≤ r && r ≤ 0xB4) || (0xB6 ≤ r && r ≤ 0xBF)
 
 def lowerRune (r : Nat) : Option Nat :=
